@@ -206,6 +206,56 @@ Definition ok_shown (c : case) : bool :=
 Definition ok (c : case) : bool := negb (inside c) || (ok_secret c && ok_shown c).
 
 (* ------------------------------------------------------------------ *)
+(* well-formed cases: what the harness promises about its own inputs   *)
+
+(* "<" (the first character of the marker token) does not occur *)
+Fixpoint clean (s : string) : bool :=
+  match s with
+  | EmptyString => true
+  | String a r => negb (N.eqb (N_of_ascii a) 60) && clean r
+  end.
+
+(* no public text of the value contains "<" *)
+Fixpoint pclean (v : val) : bool :=
+  match v with
+  | VStr s => clean s
+  | VInt z => clean (go_quote_rune (Z.to_N z))
+  | VBool _ | VSecret _ _ => true
+  | VRedacted p => pclean p
+  | VStruct n fs => clean n && forallb (fun f => clean (fst (fst f)) && pclean (snd f)) fs
+  | VMap tn kvs => clean tn && forallb (fun kv => clean (fst kv) && pclean (snd kv)) kvs
+  | VSlice l => forallb pclean l
+  | VPtr x | VIface x => pclean x
+  | VFields fs last _ =>
+      clean (go_quote_rune (Z.to_N last)) &&
+      forallb (fun kv => clean (k_name (fst kv)) && clean (k_ty (fst kv)) &&
+                         clean (go_quote_rune (Z.to_N (k_idx (fst kv)))) && pclean (snd kv)) fs
+  end.
+
+(* every secret is below a Redacted value that a sink reaches through its methods *)
+Fixpoint wrapped (m : bool) (v : val) : bool :=
+  match v with
+  | VSecret _ _ => false
+  | VRedacted p => m || wrapped false p
+  | VStruct _ fs => forallb (fun f => wrapped (m && snd (fst f)) (snd f)) fs
+  | VMap _ kvs => forallb (fun kv => wrapped m (snd kv)) kvs
+  | VSlice l => forallb (wrapped m) l
+  | VPtr x => (m && is_redacted x) || wrapped m x
+  | VIface x => wrapped m x
+  | VFields fs _ _ => m && forallb (fun kv => wrapped true (snd kv)) fs
+  | _ => true
+  end.
+
+(* the fields of a case: public text without "<" (the insertion indices too: %q prints an
+   int as a quoted character), every secret wrapped *)
+Definition wf_fields (fs : fields) (last : Z) : bool :=
+  pclean (VFields fs last []) && forallb (fun kv => wrapped true (snd kv)) fs.
+(* a case of the stream outside the statement shows its secret on purpose (unexported field) *)
+Definition wf (c : case) : bool :=
+  pclean (VFields (c_fields c) (c_last c) []) &&
+  (fields_hidden (c_fields c) || forallb (fun kv => wrapped true (snd kv)) (c_fields c)).
+
+(* ------------------------------------------------------------------ *)
 (* correspondence                                                      *)
 
 Definition plain (sp : fspec) : bool :=
@@ -296,7 +346,10 @@ Definition model_part (c : case) : option string :=
     end
   else None.
 
+(* [wf]: a case that is not well formed is a defect of the harness, reported as a broken
+   correspondence *)
 Definition corr (c : case) : bool :=
+  wf c &&
   match model c with
   | Some m => str_eqb (c_out1 c) m && str_eqb (c_out2 c) m
   | None =>
